@@ -114,7 +114,9 @@ check("C15", "model_checking",
       "states = executions (distinct choice sequences); transitions = choice points. Multi-threaded implementation (config B2): "
       "seq_join / seq_try_join_all / parallel_join with n <= 4 (5) items spawned as real tasks, window 1..4, every single in-window "
       "dependency in both directions, yields, error at the last item or with window 1, a source stream that is Pending once before "
-      "every item, every schedule within the preemption bound. Window occupancy is checked from both sides at every Pending return "
+      "every item, parallel_join with two failing tasks (the error of the first one in input order is returned; executions "
+      "that end in the documented cancellation panic of abandoned tasks are counted as tolerated and the exploration continues), "
+      "every schedule within the preemption bound. Window occupancy is checked from both sides at every Pending return "
       "of the single-threaded stream: at least min(w, outstanding) and never more than w tasks in flight.",
       [{"name": "seqjoin", "config": "A", "test": "verif::c15::run",
         "require": {"any": {"max_distinct_completion_orders": 20, "window_checks": 100}}},
